@@ -153,3 +153,114 @@ def replay_trigger(fl, FA, vals=None, **kw):
                     if trig != (rule_enabled and d > 0):
                         return {"failed": True, "expected": bool(rule_enabled and d > 0), "observed": trig, "cases": n, "call": f"triggered flag of rule 'then {text}' enabled={rule_enabled} degree={d}"}
     return {"failed": False, "cases": n}
+
+
+# ---------------------------------------------------------------------------------------------------- activation methods
+def _select_reference(method, params, degs, loaded, enabled):
+    """the property's definition of each activation method: returns (list of triggered rule indices in trigger order, final degrees)"""
+    n = len(degs)
+    idx = [i for i in range(n) if loaded[i]]
+    d = list(degs)
+    if method == "General":
+        return idx, d
+    if method in ("First", "Last"):
+        order = idx if method == "First" else list(reversed(idx))
+        out = []
+        for i in order:
+            if len(out) < params["rules"] and d[i] > 0 and d[i] >= params["threshold"]:
+                out.append(i)
+        return out, d
+    if method in ("Highest", "Lowest"):
+        pos = [i for i in idx if d[i] > 0]
+        pos.sort(key=lambda i: ((-d[i]) if method == "Highest" else d[i], i))
+        return pos[:max(0, params["rules"])], d
+    if method == "Threshold":
+        import operator
+        op = {"<": operator.lt, "<=": operator.le, "==": operator.eq, "!=": operator.ne, ">=": operator.ge, ">": operator.gt}[params["comparator"]]
+        return [i for i in idx if op(d[i], params["threshold"])], d
+    if method == "Proportional":
+        pos = [i for i in idx if d[i] > 0]
+        tot = sum(d[i] for i in pos)
+        for i in pos:
+            d[i] = d[i] / tot
+        return pos, d
+    raise KeyError(method)
+
+
+def _activation_cases(method, seed, budget):
+    import random
+    rng = random.Random(seed)
+    vals = [0.0, 0.25, 0.5, 0.5, 0.75, 1.0, 0.4995, 0.999, float("nan")]
+    if method in ("First", "Last"):
+        plist = [dict(rules=r, threshold=t) for r in (0, 1, 2, 3, 9) for t in (0.0, 0.25, 0.5, 1.0)]
+    elif method in ("Highest", "Lowest"):
+        plist = [dict(rules=r) for r in (0, 1, 2, 3, 9)]
+    elif method == "Threshold":
+        plist = [dict(comparator=c, threshold=t) for c in ("<", "<=", "==", "!=", ">=", ">") for t in (0.0, 0.5, 0.25)]
+    else:
+        plist = [dict()]
+    for _ in range(budget):
+        n = rng.choice([1, 2, 3, 3, 4, 5, 8])
+        degs = [rng.choice(vals) for _ in range(n)]
+        loaded = [rng.random() > 0.15 for _ in range(n)]
+        enabled = [rng.random() > 0.15 for _ in range(n)]
+        yield rng.choice(plist), degs, loaded, enabled
+
+
+def replay_activation(fl, FA, method="General", vals=None, seed=0, budget=400, **kw):
+    """rule blocks of 1-8 rules with arbitrary degree vectors (ties, zeros, unloaded and disabled rules): the real activate() against
+    the definition. Rule i is `if x_i is up then y is c_i` with x_i in [0,1] and `up` = Ramp(0,1), so its degree is the input value."""
+    import numpy as np
+    cases = 0
+    seen = set()
+    for params, degs, loaded, enabled in _activation_cases(method, seed, budget):
+        n = len(degs)
+        ins = [fl.InputVariable(name=f"x{i}", minimum=0.0, maximum=1.0, terms=[fl.Ramp("up", 0.0, 1.0)]) for i in range(n)]
+        out = fl.OutputVariable(name="y", minimum=0.0, maximum=10.0, aggregation=None, defuzzifier=fl.WeightedAverage(),
+                                terms=[fl.Constant(f"c{i}", float(i + 1)) for i in range(n)])
+        act = getattr(fl, method)(**params)
+        rb = fl.RuleBlock(name="rb", conjunction=None, disjunction=None, implication=None, activation=act,
+                          rules=[fl.Rule.create(f"if x{i} is up then y is c{i}") for i in range(n)])
+        e = fl.Engine(name="w", input_variables=ins, output_variables=[out], rule_blocks=[rb], load=False)
+        for i, r in enumerate(rb.rules):
+            if loaded[i]:
+                r.load(e)
+            r.enabled = enabled[i]
+            r.triggered = np.array(True); r.activation_degree = np.float64(0.123)       # stale state from an earlier activation
+        for i, v in enumerate(ins):
+            v.value = degs[i]
+        out.fuzzy.clear()
+        try:
+            rb.activate()
+        except Exception as ex:  # noqa
+            return {"failed": True, "expected": "no exception for scalar inputs", "observed": f"{type(ex).__name__}: {ex}", "call": f"{method}({params}) degrees={degs} loaded={loaded}"}
+        cases += 1
+        seen.add((method, tuple(sorted(params.items())), n, tuple(degs), tuple(loaded), tuple(enabled)))
+        trig, dfin = _select_reference(method, params, degs, loaded, enabled)
+        exp_terms = [(f"c{i}", _clean(dfin[i])) for i in trig if enabled[i]]
+        got_terms = [(a.term.name, float(a.degree)) for a in out.fuzzy.terms]
+        exp_flags = [bool(loaded[i] and i in trig and enabled[i] and dfin[i] > 0) for i in range(n)]
+        got_flags = [bool(np.all(r.triggered)) for r in rb.rules]
+        exp_deg = [float(dfin[i]) if loaded[i] else 0.0 for i in range(n)]
+        got_deg = [float(r.activation_degree) for r in rb.rules]
+        ok = (len(got_terms) == len(exp_terms) and all(g[0] == x[0] and FA.same(g[1], x[1]) for g, x in zip(got_terms, exp_terms))
+              and got_flags == exp_flags and all(FA.same(a, b) for a, b in zip(got_deg, exp_deg)))
+        exp_terms = [(t, None if x != x else x) for t, x in exp_terms]; exp_deg = [None if x != x else x for x in exp_deg]        # JSON-friendly NaN
+        got_deg = [None if x != x else x for x in got_deg]
+        if not ok:
+            return {"failed": True, "expected": {"terms": exp_terms, "triggered": exp_flags, "degrees": exp_deg},
+                    "observed": {"terms": got_terms, "triggered": got_flags, "degrees": got_deg}, "cases": cases,
+                    "call": f"{method}({params}).activate(block) with rule degrees {degs}, loaded {loaded}, enabled {enabled}"}
+    # vector-incapable methods reject batches
+    if method != "General":
+        ins = [fl.InputVariable(name="x0", minimum=0.0, maximum=1.0, terms=[fl.Ramp("up", 0.0, 1.0)])]
+        out = fl.OutputVariable(name="y", minimum=0.0, maximum=10.0, defuzzifier=fl.WeightedAverage(), terms=[fl.Constant("c0", 1.0)])
+        rb = fl.RuleBlock(name="rb", activation=getattr(fl, method)(), rules=[fl.Rule.create("if x0 is up then y is c0")])
+        e = fl.Engine(name="w", input_variables=ins, output_variables=[out], rule_blocks=[rb])
+        ins[0].value = np.array([0.2, 0.8])
+        try:
+            rb.activate()
+            return {"failed": True, "expected": "ValueError for a batch", "observed": "no exception", "call": f"{method}().activate(block) with a batch of 2 rows"}
+        except ValueError:
+            pass
+    return {"failed": False, "cases": cases, "distinct": len(seen)}
